@@ -1480,6 +1480,338 @@ def stream_reuse(run, rng, n):
                          'with a single call in another copy of a fresh interpreter (other hash seed, fresh containers); Coq: args_judge')
 
 
+# ======================================================================================================================
+# stream 9: the environment is an input, the clock is not.  SOURCE_DATE_EPOCH is a DIMENSION of the stream (boundary
+# values: 0, 1, a recent value, 2^31, 2^32, the last second of year 9999; unset where the property demands no
+# equality), crossed with documents that carry every kind of time-stamped object: <link rel=attachment>,
+# <a rel=attachment>, every kind of item of options['attachments'] (file name, pathlib path, URL, file object,
+# Attachment(guess | filename= | url= | string= | file_obj=) with and without created= / modified=),
+# <meta name=dcterms.created|modified> (Info dictionary, XMP packet of the PDF/A and PDF/UA variants), font subsets saved by
+# fontTools (head.modified).  Every render runs under a FAKED, frozen clock chosen by the harness (impl_c19._FakeClock):
+# (1) two renders of one input under two clocks 1 s / 1 day / 400 days apart - and a third one in another interpreter
+#     with another hash seed and yet another clock - give the same bytes when the variable is set; when it is not, two
+#     renders under the SAME frozen clock do;
+# (2) every date of every PDF is read back and judged in Coq (C19Dates.date_judge) on that ONE render: a date the
+#     document does not give is the epoch, never the clock.
+
+PRE_DATES = ('From Coq Require Import ZArith List Bool.\nRequire Import WV.model.C19Dates.\nImport ListNotations.\nOpen Scope Z_scope.\n')
+EPOCHS = ['0', '1', '1700000000', '2147483648', '4294967296', '253402300799', None]
+EPOCH_DATES = [0, 1, 86399, 951782400, 1234567890, 2147483648, 4102444800]      # explicit created= / modified= arguments
+ATT_KINDS = ['raw-str', 'raw-pathlib', 'raw-url', 'raw-fileobj', 'obj-guess', 'obj-filename', 'obj-url', 'obj-string', 'obj-fileobj']
+ATT_SOURCE = {'raw-str': 'Guess', 'raw-pathlib': 'Guess', 'raw-url': 'Guess', 'raw-fileobj': 'Guess', 'obj-guess': 'Guess',
+              'obj-filename': 'Filename', 'obj-url': 'Url', 'obj-string': 'Str', 'obj-fileobj': 'FileObj', 'link': 'Url', 'a': 'Url'}
+META_DATES = [None, None, '2020-01-0%d', '2019-12-2%dT23:59:58Z', '2021-06-1%dT08:30:00+05:30', '1999-01-0%dT00:00:00-08:00']
+EPOCH_OPTS = [{}, {}, {'uncompressed_pdf': True}, {'pdf_variant': 'pdf/a-3b'}, {'pdf_variant': 'pdf/a-2u'}, {'pdf_variant': 'pdf/ua-1'},
+              {'pdf_variant': 'pdf/a-4u'}, {'full_fonts': True}, {'hinting': True}, {'custom_metadata': True, 'pdf_forms': True},
+              {'pdf_version': '2.0', 'uncompressed_pdf': True}]
+
+
+def epoch_files():
+    """Eight small files with distinct contents, written once (same path, same ctime / mtime for every interpreter)."""
+    d = os.path.join(common.WORK, 'c19files')
+    os.makedirs(d, exist_ok=True)
+    paths = {}
+    for i in range(8):
+        name = 'e%d.%s' % (i, ['txt', 'bin', 'css', 'dat'][i % 4])
+        text = 'c19 epoch stream, file %d\n' % i
+        p = os.path.join(d, name)
+        if not os.path.exists(p) or open(p).read() != text:
+            open(p, 'w').write(text)
+        paths[name] = (p, text)
+    return paths
+
+
+def _md5(data):
+    import hashlib
+    return hashlib.md5(data if isinstance(data, bytes) else data.encode()).hexdigest()
+
+
+def gen_epoch(rng, i, files, epoch):
+    """One case.  `model`: md5 of the attachment's content -> its construction as the model sees it."""
+    uniq = 'c%d' % i
+    names = rng.sample(sorted(files), len(files))
+    model = {}
+    head, body, atts = [], [], []
+
+    def html_url(kind, n):
+        if rng.random() < 0.6:
+            text = '%s-%s-%d' % (uniq, kind, n)
+            model[_md5(text)] = {'kind': kind, 'source': 'Url', 'created': None, 'modified': None}
+            return 'data:text/plain,' + text
+        p, text = files[names.pop()]
+        model[_md5(text)] = {'kind': kind, 'source': 'Url', 'created': None, 'modified': None}
+        return 'file://' + p
+    full = i < len(EPOCHS)      # one case per value of the variable carries every class of attachment, dates not given
+    for n in range(rng.choice([0, 1, 1, 2]) if not full else 1):
+        head.append('<link rel=attachment href="%s" title="linked %d">' % (html_url('link', n), n))
+    for n in range(rng.choice([0, 1, 1, 2]) if not full else 1):
+        body.append('<p>see <a rel=attachment href="%s">the file %d</a></p>' % (html_url('a', n), n))
+    nopt = (rng.choice([0, 2, 3, 3, 4]) if names else 0) if not full else 4
+    for n in range(nopt):
+        kind = ATT_KINDS[(3 * i + n + rng.choice([0, 0, 1])) % len(ATT_KINDS)]
+        if full:
+            kind = [ATT_KINDS[i % 4], 'obj-string', ATT_KINDS[4 + i % 5], 'obj-filename'][n]
+        spec = {'kind': kind}
+        if kind == 'obj-string':
+            spec['text'] = text = '%s-string-%d' % (uniq, n)
+        elif kind in ('raw-url', 'obj-url') and rng.random() < 0.5:
+            text = '%s-url-%d' % (uniq, n)
+            spec['url'] = 'data:text/plain,' + text
+        else:
+            if not names:
+                break
+            p, text = files[names.pop()]
+            spec['path'] = p
+            spec['url'] = 'file://' + p
+        if kind.startswith('obj-'):
+            which = rng.choice(['none', 'none', 'created', 'modified', 'both']) if not (full and n < 3) else 'none'
+            if which in ('created', 'both'):
+                spec['created'] = rng.choice(EPOCH_DATES + [rng.randint(0, 2 ** 32)])
+            if which in ('modified', 'both'):
+                spec['modified'] = rng.choice(EPOCH_DATES + [rng.randint(0, 2 ** 32)])
+            spec['aware'] = rng.random() < 0.5
+            if rng.random() < 0.5:
+                spec['name'] = 'att%d.txt' % n
+            if rng.random() < 0.3:
+                spec['description'] = 'attachment %d' % n
+        model[_md5(text)] = {'kind': kind, 'source': ATT_SOURCE[kind], 'created': spec.get('created'), 'modified': spec.get('modified'),
+                             'path': spec.get('path')}
+        atts.append(spec)
+    metas = ''
+    for name in ('created', 'modified'):
+        form = rng.choice(META_DATES)
+        if form:
+            metas += '<meta name=dcterms.%s content="%s">' % (name, form % rng.randint(1, 9))
+    if rng.random() < 0.5:
+        doc = gen_doc(rng, nblocks=rng.randint(1, 3), bleed=False)
+        html = doc['html'].replace('<meta charset=utf-8>', '<meta charset=utf-8>' + metas + ''.join(head), 1)
+        html = html.replace('</body>', ''.join(body) + '</body>', 1)
+        css = doc['css']
+        grammar = True
+    else:
+        fam = rng.choice(FAMILIES)
+        html = ('<html><head><meta charset=utf-8>%s%s<title>%s</title><style>%s body { font-family: %s; font-size: 12px } '
+                'h1 { font-family: %s }</style></head><body><h1>%s</h1><p>%s</p>%s</body></html>' % (
+                    metas, ''.join(head), uniq, ' '.join(FONT_FACES.values()), fam, rng.choice(FAMILIES),
+                    ' '.join(rng.choice(WORDS) for _ in range(rng.randint(1, 4))),
+                    ' '.join(rng.choice(WORDS) for _ in range(rng.randint(2, 10))), ''.join(body)))
+        css = []
+        grammar = False
+    import re
+    meta = []
+    for name in ('created', 'modified'):      # the first element wins (get_html_metadata)
+        m = re.search(r'<meta name=dcterms\.%s content="([^"]*)">' % name, html)
+        meta.append(m.group(1) if m else None)
+    a = rng.randint(946684800, 1262304000)      # 2000 .. 2010: never the epoch values, never the real clock
+    delta = rng.choice([1, 86400, 400 * 86400 + 3661])
+    clocks = [a, a + delta] if epoch is not None else [a, a, a + delta]
+    opts = dict(rng.choice(EPOCH_OPTS), pdf_identifier='c19')
+    return {'id': i, 'html': html, 'css': css, 'opts': opts, 'atts': atts, 'epoch': epoch, 'clocks': clocks,
+            'api': rng.choice(['write', 'write', 'render']), 'model': model, 'meta': meta, 'grammar': grammar}
+
+
+def _date_seconds(text):
+    """'D:YYYYMMDDHHMMSSZ' -> seconds since 1970; anything else -> -1 (no date of the model is negative)."""
+    import calendar, re, time
+    m = re.match(r'^D:(\d{14})Z$', text or '')
+    if not m:
+        return -1
+    try:
+        return calendar.timegm(time.strptime(m.group(1), '%Y%m%d%H%M%S'))
+    except (ValueError, OverflowError):
+        return -1
+
+
+def _digits(text):
+    """A W3C date and the PDF date written for it have the same digits (full dates and full date-times are generated)."""
+    import re
+    if text is None:
+        return None
+    d = re.sub(r'\D', '', text)
+    return int(d) if d else -1
+
+
+def _oz(v):
+    return 'None' if v is None else 'Some (%d)' % v
+
+
+def epoch_coq(case, o, run_obs):
+    """The Coq term (dcase) of one render, and what was matched: (term, [(kind, created given, modified given)])."""
+    dates = run_obs['dates']
+    meta = (_digits(case['meta'][0]), _digits(case['meta'][1]))
+    infos = []
+    if dates['info'] is not None:
+        infos.append((_digits(dates['info'][0]), _digits(dates['info'][1])))
+    for x in dates['xmp']:
+        infos.append((_digits(x[0]), _digits(x[1])))
+    files, matched = [], []
+    for f in dates['files']:
+        m = case['model'].get(f['md5']) or {'kind': 'unlisted', 'source': 'Url', 'created': None, 'modified': None}
+        ct, mt = (o.get('file_times') or {}).get(m.get('path'), [0, 0]) if m['source'] == 'Filename' else (0, 0)
+        files.append('(amk %s (%s) (%s) (%d) (%d), ((%d), (%d)))' % (m['source'], _oz(m['created']), _oz(m['modified']), ct, mt,
+                                                                  _date_seconds(f['created']), _date_seconds(f['modified'])))
+        matched.append((m['kind'], m['created'] is not None, m['modified'] is not None))
+    others = [_date_seconds(t) for _, t in dates['others']]
+    term = '(%s, (%d), (%s, %s), [%s], [%s], [%s], [%s], [%s])' % (
+        _oz(None if case['epoch'] is None else int(case['epoch'])), run_obs['clock'], _oz(meta[0]), _oz(meta[1]),
+        '; '.join('(%s, %s)' % (_oz(a), _oz(b)) for a, b in infos), '; '.join(files),
+        '; '.join('(%d)' % x for x in o['font_file_dates']), '; '.join('(%d)' % x for x in dates['fonts']),
+        '; '.join('(%d)' % x for x in others))
+    return term, matched
+
+
+def epoch_value(obs):
+    return ('exc', tuple(obs['exc']['site'] or ()), obs['exc']['type']) if 'exc' in obs else ('pdf', obs['pdf'], obs['len'])
+
+
+def judge_epoch(case, o, other=None):
+    """Python part of the judge of one case: [(signature, what)].  `other`: the same input rendered in another interpreter
+    (another hash seed) under another clock."""
+    bad = []
+    runs = o['runs']
+    vals = [epoch_value(r) for r in runs]
+    if case['epoch'] is not None:
+        if len(set(vals)) > 1:
+            bad.append(('c19:output-depends-on-the-clock',
+                        'SOURCE_DATE_EPOCH=%s, fixed identifier: the same input written under two clocks (%s) gives different bytes: %s' % (
+                            case['epoch'], [r['clock'] for r in runs], [str(v)[:60] for v in vals])))
+        if other is not None and epoch_value(other['runs'][0]) != vals[0]:
+            bad.append(('c19:output-depends-on-the-clock',
+                        'SOURCE_DATE_EPOCH=%s, fixed identifier: the same input written in another interpreter (hash seed %s vs %s) under '
+                        'another clock gives different bytes: %s vs %s' % (case['epoch'], other.get('hashseed'), o.get('hashseed'),
+                                                                            str(epoch_value(other['runs'][0]))[:60], str(vals[0])[:60])))
+    elif vals[0] != vals[1]:
+        bad.append(('c19:same-clock-different-bytes', 'SOURCE_DATE_EPOCH unset, clock frozen at %s: two renders of the same input differ: %s' % (
+            runs[0]['clock'], [str(v)[:60] for v in vals[:2]])))
+    return bad
+
+
+def _epoch_jobs(cases):
+    """Jobs of forked interpreters: 3 cases each, hash seeds 0..3 in turn; then, for every case with the variable set, the
+    same input once more in an interpreter with ANOTHER hash seed under another clock."""
+    jobs, seeds = [], {}
+    for n, j in enumerate(range(0, len(cases), 3)):
+        chunk = cases[j:j + 3]
+        for c in chunk:
+            seeds[c['id']] = n % 4
+        jobs.append({'hashseed': n % 4, 'job': {'docs': [], 'histories': [], 'module_snapshot': False,
+                                                'direct': {'fn': 'epoch_case', 'cases': [{k: v for k, v in c.items() if k != 'model'} for c in chunk]}}})
+    again = [c for c in cases if c['epoch'] is not None]
+    for n, j in enumerate(range(0, len(again), 4)):
+        chunk = again[j:j + 4]
+        by_seed = {}
+        for c in chunk:
+            by_seed.setdefault((seeds[c['id']] + 1 + n % 3) % 4, []).append(c)
+        for s, cs in sorted(by_seed.items()):
+            jobs.append({'hashseed': s, 'again': [c['id'] for c in cs],
+                         'job': {'docs': [], 'histories': [], 'module_snapshot': False, 'direct': {'fn': 'epoch_case', 'cases': [
+                             dict({k: v for k, v in c.items() if k != 'model'}, clocks=[c['clocks'][-1] + 7 * 86400 + 11]) for c in cs]}}})
+    return jobs
+
+
+def stream_epoch(run, rng, n):
+    files = epoch_files()
+    cases = []
+    for i in range(n):
+        cases.append(gen_epoch(rng, i, files, EPOCHS[i % len(EPOCHS)]))
+    jobs = _epoch_jobs(cases)
+    outs = yield ('jobs', [{k: v for k, v in j.items() if k != 'again'} for j in jobs])
+    main, others = {}, {}
+    k = 0
+    ok_jobs = True
+    for j, (st, o) in zip(jobs, outs):
+        ids = j.get('again')
+        if st != 'ok' or o.get('crashed'):
+            run.oblige('epoch:job-ran', False, str(o)[:1500])
+            ok_jobs = False
+            if ids is None:
+                k += len(j['job']['direct']['cases'])
+            continue
+        for idx, res in enumerate(o['direct']):
+            if ids is None:
+                main[cases[k]['id']] = tuple(res)
+                k += 1
+            else:
+                others[ids[idx]] = tuple(res)
+    reported = {}
+    coq, owners = [], []
+    nrenders = raised = 0
+    cover = set()
+    readers = {}
+    restored = True
+    for c in cases:
+        st, o = main.get(c['id'], ('exc', None))
+        if st != 'ok':
+            run.oblige('epoch:case-ran', False, 'case %d: %s' % (c['id'], str(o)[:600]))
+            continue
+        oth = others.get(c['id'])
+        oth = oth[1] if oth and oth[0] == 'ok' else None
+        restored = restored and o['clock_restored']
+        for sig, what in judge_epoch(c, o, oth):
+            reported[sig] = reported.get(sig, 0) + 1
+            if reported[sig] <= 2:
+                report(run, what, {'stream': 'epoch', 'case': c, 'observed': {'runs': o['runs'], 'other': oth and oth['runs']}}, sig)
+        for r in o['runs'] + (oth['runs'] if oth else []):
+            nrenders += 1
+            if 'exc' in r:
+                raised += 1
+                continue
+            for m in r.get('clock_readers', []):
+                key = '%s:%s' % ('set' if c['epoch'] is not None else 'unset', m)
+                readers[key] = readers.get(key, 0) + 1
+            term, matched = epoch_coq(c, o, r)
+            coq.append(term)
+            owners.append((c, r, matched))
+    try:
+        masks = common.eval_cases('c19dates', PRE_DATES, 'dcase', coq, 'date_judge')
+    except RuntimeError as exc:
+        run.oblige('corr:epoch-dates', False, str(exc))
+        masks = []
+    mism = []
+    default_dates = 0
+    for (c, r, matched), m in zip(owners, masks):
+        for kind, cg, mg in matched:
+            cover.add((str(c['epoch']), kind, cg, mg))
+            default_dates += (not cg) + (not mg) if kind != 'obj-filename' else 0
+        if m & 2:
+            sig = 'c19:default-date-not-the-epoch'
+            reported[sig] = reported.get(sig, 0) + 1
+            if reported[sig] <= 2:
+                report(run, 'SOURCE_DATE_EPOCH=%s, clock frozen at %s: a date written into the PDF is neither given by the document nor the '
+                       'epoch: embedded files %s, fonts %s, other dates %s, Info/XMP %s %s (document: %s)' % (
+                           c['epoch'], r['clock'], [(f['created'], f['modified']) for f in r['dates']['files']][:6], r['dates']['fonts'][:4],
+                           r['dates']['others'][:4], r['dates']['info'], r['dates']['xmp'], c['meta']),
+                       {'stream': 'epoch', 'case': c, 'clause': 'dates', 'observed': {'run': r}}, sig)
+        if m & 1:
+            mism.append({'case': c['id'], 'epoch': c['epoch'], 'clock': r['clock'], 'dates': r['dates'], 'model': c['model']})
+    run.oblige('corr:epoch-dates(model write: Info / XMP / EmbeddedFile / font dates of every render vs the implementation, clock known)',
+               not mism and len(masks) == len(coq), 'first disagreements: %s' % (json.dumps(mism[:2])[:1800],))
+    run.oblige('epoch:clock-restored-after-every-case', restored, 'a worker left the faked clock installed')
+    zero_kinds = {k for (e, k, cg, mg) in cover if e == '0' and not (cg and mg)}
+    want = {'link', 'a', 'obj-string'}
+    run.oblige('epoch:coverage(SOURCE_DATE_EPOCH=0 met with default dates of <link>, <a> and option attachments; >= 40 default dates judged)',
+               want <= zero_kinds and any(k.startswith('raw-') for k in zero_kinds) and default_dates >= 40,
+               'kinds with default dates at epoch 0: %s; default dates judged: %d' % (sorted(zero_kinds), default_dates))
+    run.oblige('epoch:renders-succeed', raised * 5 <= max(1, nrenders), '%d of %d renders raised' % (raised, nrenders))
+    run.count('epoch', nrenders, [('key',) + tuple(map(str, x)) for x in cover] +
+              [('opts', str(c['epoch']), json.dumps(c['opts'], sort_keys=True)) for c in cases],
+              samples=[{k: v for k, v in cases[0].items() if k != 'model'}])
+    run.stream_info('epoch', cases=len(cases), renders=nrenders, renders_that_raised=raised, dates_judged_in_coq=len(masks),
+                    default_dates_judged=default_dates, epochs=EPOCHS, findings=reported,
+                    interpreters=len(jobs), second_interpreter_cases=len(others),
+                    modules_that_read_the_clock={k: v for k, v in sorted(readers.items())},
+                    rule='SOURCE_DATE_EPOCH in turn 0, 1, 1700000000, 2^31, 2^32, 253402300799 (9999-12-31T23:59:59Z), unset; documents: '
+                         'random grammar or a small page, 0..2 <link rel=attachment>, 0..2 <a rel=attachment> (data: or file: URLs), 0..4 '
+                         'items of options[attachments] of 9 kinds (file name, pathlib path, URL, file object, Attachment(guess / filename= '
+                         '/ url= / string= / file_obj=) with created= / modified= given or not, naive or aware), <meta dcterms.created / '
+                         'modified> in 4 forms, @font-face otf / woff and system fonts, 11 option profiles (PDF/A-2u/3b/4u, PDF/UA-1, full '
+                         'fonts, hinting, forms, uncompressed); the system clock is FAKED and frozen in the worker (datetime.now / utcnow / '
+                         'today, time.time / time_ns in every loaded module): variable set -> clocks A and A + (1 s | 1 day | 400 days + '
+                         '3661 s) in one interpreter and A + 7 days more in an interpreter with another hash seed: same bytes; unset -> A, A: '
+                         'same bytes; every Info / XMP / EmbeddedFile / font head.modified / other date of every PDF read back and judged '
+                         'by C19Dates.date_judge on that one render')
+
+
 def _expand(req):
     """A stream's request -> zygote cases.  ('jobs', cases) as they are; ('direct', fn, cases, chunk): chunks of direct
     calls spread over the four hash seeds."""
@@ -1564,7 +1896,7 @@ def drive(run, gens):
 
 
 STREAM_NAMES = {'cache': 'cache-direct', 'names': 'names-direct', 'zoomd': 'zoom-direct', 'zoomr': 'zoom-render', 'copy': 'copy-render',
-                'relayout': 'relayout', 'probes': 'probes', 'reuse': 'reuse', 'monitor': 'monitor'}
+                'relayout': 'relayout', 'probes': 'probes', 'reuse': 'reuse', 'monitor': 'monitor', 'epoch': 'epoch'}
 
 
 def check(run):
@@ -1574,17 +1906,22 @@ def check(run):
     only = os.environ.get('C19_ONLY', '').split(',') if os.environ.get('C19_ONLY') else None
     t0 = time.time()
     if not only or 'prove' in only:
-        common.prove(run, 'C19', ['model/C19Cache.vo', 'model/C19Names.vo', 'model/C19Pdf.vo', 'model/C19Relayout.vo', 'model/C19Args.vo'])
+        common.prove(run, 'C19', ['model/C19Cache.vo', 'model/C19Names.vo', 'model/C19Pdf.vo', 'model/C19Relayout.vo', 'model/C19Args.vo',
+                                   'model/C19Dates.vo'])
     run.stream_info('prove', seconds=round(time.time() - t0, 1))
     run.trusted += ['Coq 8.16.1 kernel (coqc); vm_compute for the cases.v evaluation',
-                    'hand models coq/model/C19*.v, tied to /repo only by the direct-call correspondence streams',
+                    'hand models coq/model/C19*.v, tied to /repo only by the direct-call correspondence streams (C19Dates.v: by the dates '
+                    'read back from every PDF of the epoch stream, the clock being known)',
                     'harness/impl_c19.py (runner, zygote/fork, deep description of objects, stubs), harness/pdfread.py, the Python judges '
                     'of the zoom-render / copy-render / reuse streams and of the differential monitor',
                     'CPython, Pango, fontconfig, Pillow, fontTools as installed: the monitor compares executions, it does not model them']
     run.assumptions += ['the url_fetcher and the decoders are deterministic functions (model of the cache); a flaky fetcher is outside',
                         'hash-seed independence, module-level state, dict/set iteration order, object addresses: differential only',
                         'a copy (fork) of an interpreter that imported weasyprint and rendered nothing stands for a fresh interpreter',
-                        'relayout model: row container, cross axis only, box-sizing content-box, no auto margins, min/max-height auto']
+                        'relayout model: row container, cross axis only, box-sizing content-box, no auto margins, min/max-height auto',
+                        'epoch stream: the faked clock replaces datetime.now / utcnow / today and time.time / time_ns in every loaded module; a '
+                        'read of the system clock made in C (none known in the render path) would only show as a difference between renders '
+                        'made at different real times; dates are read back with harness/pdfread.py and by parsing the sfnt head table']
     k = 8 if thorough else 1
     # quick-tier volumes are sized for ~120 core-seconds in total; the thorough tier has 8x the cases
     plan = [('cache', lambda: stream_cache(run, rng, 200 * k)),
@@ -1595,7 +1932,9 @@ def check(run):
             ('relayout', lambda: stream_relayout(run, rng, 40 * k)),
             ('probes', lambda: stream_probes(run)),
             ('reuse', lambda: stream_reuse(run, rng, 38 * k)),
-            ('monitor', lambda: stream_monitor(run, rng, 16 * k, 56 * k, 16 * (4 if thorough else 1)))]
+            ('monitor', lambda: stream_monitor(run, rng, 16 * k, 56 * k, 16 * (4 if thorough else 1))),
+            # its own generator: the cases of the streams above do not move
+            ('epoch', lambda: stream_epoch(run, random.Random(run.seed * 7919 + 1909), 42 * k))]
     gens = [(name, fn()) for name, fn in plan if not only or name in only]
     seconds, compute = drive(run, gens)
     for name, _ in gens:
@@ -1688,6 +2027,28 @@ def replay(data):
             print('replay:', sig, what)
         print('replay: calls', [reuse_value(x) for x in o['calls']], 'reference', reuse_value(ref['calls'][0]))
         return 1 if bad else 0
+    if st == 'epoch':
+        epoch_files()
+        c = d['case']
+        sent = {k: v for k, v in c.items() if k != 'model'}
+        outs = run_zygotes([{'hashseed': 1, 'job': {'docs': [], 'histories': [], 'module_snapshot': False,
+                                                    'direct': {'fn': 'epoch_case', 'cases': [sent]}}},
+                            {'hashseed': 2, 'job': {'docs': [], 'histories': [], 'module_snapshot': False,
+                                                    'direct': {'fn': 'epoch_case', 'cases': [dict(sent, clocks=[c['clocks'][-1] + 7 * 86400 + 11])]}}}])
+        if any(s_ != 'ok' or o.get('crashed') or o['direct'][0][0] != 'ok' for s_, o in outs):
+            print('replay: interpreter failed', str(outs)[:2000])
+            return 1
+        o, oth = outs[0][1]['direct'][0][1], outs[1][1]['direct'][0][1]
+        bad = judge_epoch(c, o, oth if c['epoch'] is not None else None)
+        for sig, what in bad:
+            print('replay:', sig, what)
+        runs = [r for r in o['runs'] + oth['runs'] if 'exc' not in r]
+        masks = common.eval_cases('c19dates', PRE_DATES, 'dcase', [epoch_coq(c, o, r)[0] for r in runs], 'date_judge')
+        for r, m in zip(runs, masks):
+            print('replay: SOURCE_DATE_EPOCH=%s clock=%s date_judge=%d embedded files %s fonts %s others %s info %s' % (
+                c['epoch'], r['clock'], m, [(f['created'], f['modified']) for f in r['dates']['files']], r['dates']['fonts'],
+                r['dates']['others'], r['dates']['info']))
+        return 1 if bad or any(m & 2 for m in masks) else 0
     if st == 'probes':
         (s_, o), = common.run_impl('impl_c19', 'probe', [{'name': d['probe']}], limit=120)
         pred = ([p for p in PROBES if p[0] == d['probe']] or [(0, 0, lambda o: o['raises'] or not o.get('copy_ok'))])[0][2]
